@@ -30,6 +30,23 @@ var (
 type dim struct {
 	name   string
 	labels []string // labels[0] == "" (default)
+	prod   int      // number of leading choices that take part in the full products (0 = all); the
+	// remaining choices are exercised as single features, in two-filter messages and under corruption
+}
+
+func (d dim) prodLen() int {
+	if d.prod > 0 {
+		return d.prod
+	}
+	return len(d.labels)
+}
+
+func kindLabels(prefix string, kinds []string) []string {
+	out := make([]string, len(kinds))
+	for i, k := range kinds {
+		out[i] = prefix + k
+	}
+	return out
 }
 
 // ---- event dimensions ----
@@ -44,16 +61,19 @@ const (
 )
 
 var evDims = [nEvDims]dim{
-	{"kind", []string{"", "event kind 0", "event kind 5", "event kind 65535"}},
-	{"created_at", []string{"", "created_at 0", "created_at 1"}},
-	{"tags", []string{"", "event with an e tag", "event with p and t tags", "event with an a tag", "event with a one-element tag", "event with relay and challenge tags"}},
-	{"content", []string{"", `content "a"`, "content with < > & and a space", "content with escaped newline and quote", "content with a non-ASCII character"}},
-	{"order", []string{"", "event members in reverse order", "event members with sig first", "event members interleaved"}},
-	{"hex", []string{"", "id/pubkey/sig made of '0' only", "id/pubkey/sig made of 'f' only"}},
+	{"kind", append([]string{""}, kindLabels("event kind ", evKinds[1:])...), 6},
+	{"created_at", []string{"", "created_at 0", "created_at 1"}, 0},
+	{"tags", []string{"", "event with an e tag", "event with p and t tags", "event with an a tag", "event with a one-element tag", "event with relay and challenge tags"}, 0},
+	{"content", []string{"", `content "a"`, "content with < > & and a space", "content with escaped newline and quote", "content with a non-ASCII character"}, 0},
+	{"order", []string{"", "event members in reverse order", "event members with sig first", "event members interleaved"}, 0},
+	{"hex", []string{"", "id/pubkey/sig made of '0' only", "id/pubkey/sig made of 'f' only"}, 0},
 }
 
+// evKinds: the first six take part in the event product; the others are the boundaries of the kind
+// ranges NIP-01 names (regular / replaceable / ephemeral / addressable), tried one at a time.
+var evKinds = []string{"1", "0", "5", "65535", "32767", "32768", "9999", "10000", "19999", "20000", "29999", "30000", "39999", "40000"}
+
 var (
-	evKinds    = []string{"1", "0", "5", "65535"}
 	evCreated  = []string{"1700000000", "0", "1"}
 	evContents = []string{"", "a", "<>& ", "\n\"", "é"}
 	evOrders   = [][7]int{{0, 1, 2, 3, 4, 5, 6}, {6, 5, 4, 3, 2, 1, 0}, {6, 0, 1, 2, 3, 4, 5}, {3, 5, 0, 4, 6, 1, 2}}
@@ -114,21 +134,37 @@ const (
 )
 
 var fDims = [nFDims]dim{
-	{"ids", []string{"", "ids with one value", "ids empty array", "ids with two values"}},
-	{"authors", []string{"", "authors with one value", "authors empty array", "authors with two values"}},
-	{"kinds", []string{"", "kinds [0]", "kinds [65535]", "kinds [1,7]", "kinds empty array"}},
-	{"#e", []string{"", "#e with one value", "#e empty array"}},
-	{"#p", []string{"", "#p with one value"}},
-	{"#t", []string{"", "#t with one value"}},
-	{"#a", []string{"", "#a value with empty d", `#a value with d "x"`, "#a value with ':' inside d", "#a value of a replaceable kind"}},
-	{"#E", []string{"", "#E (upper-case single letter)"}},
-	{"since", []string{"", "since 0", "since 5"}},
-	{"until", []string{"", "until 5", "until 9"}},
-	{"limit", []string{"", "limit 0", "limit 1", "limit 500"}},
-	{"order", []string{"", "filter members in reverse order"}},
+	{"ids", []string{"", "ids with one value", "ids empty array", "ids with two values"}, 0},
+	{"authors", []string{"", "authors with one value", "authors empty array", "authors with two values"}, 0},
+	{"kinds", []string{"", "kinds [0]", "kinds [65535]", "kinds [1,7]", "kinds empty array", "kinds [32767,32768]", "kinds [9999,10000]", "kinds [19999,20000,29999]", "kinds [30000,39999,40000]"}, 6},
+	{"#e", []string{"", "#e with one value", "#e empty array"}, 0},
+	{"#p", []string{"", "#p with one value"}, 0},
+	{"#t", []string{"", "#t with one value"}, 0},
+	{"#a", append([]string{"", "#a value with empty d", `#a value with d "x"`, "#a value with ':' inside d", "#a value of a replaceable kind"}, kindLabels("#a value with kind part ", naddrKinds)...), 7},
+	{"#E", []string{"", "#E (upper-case single letter)"}, 0},
+	{"since", []string{"", "since 0", "since 5"}, 0},
+	{"until", []string{"", "until 5", "until 9"}, 0},
+	{"limit", []string{"", "limit 0", "limit 1", "limit 500"}, 0},
+	{"order", []string{"", "filter members in reverse order"}, 0},
 }
 
-var naddrChoices = []string{"", "30023:" + hexX + ":", "30023:" + hexX + ":x", "30023:" + hexX + ":x:y:z", "10002:" + hexX + ":"}
+// naddrKinds: kind parts of #a values beyond 30023 / 10002 — every value in 0..65535 is a kind, the
+// statement's only constraint. The first two take part in the filter product.
+var naddrKinds = []string{"65535", "32768", "0", "1", "9999", "10000", "30000", "32767", "35000", "39999", "40000"}
+
+var naddrChoices = func() []string {
+	out := []string{"", "30023:" + hexX + ":", "30023:" + hexX + ":x", "30023:" + hexX + ":x:y:z", "10002:" + hexX + ":"}
+	for i, k := range naddrKinds {
+		d := "name"
+		if i%2 == 0 {
+			d = ""
+		}
+		out = append(out, k+":"+hexX+":"+d)
+	}
+	return out
+}()
+
+var fKindLists = [][]string{nil, {"0"}, {"65535"}, {"1", "7"}, {}, {"32767", "32768"}, {"9999", "10000"}, {"19999", "20000", "29999"}, {"30000", "39999", "40000"}}
 
 func hexList(choice int) *jv {
 	switch choice {
@@ -154,15 +190,12 @@ func buildFilter(s [nFDims]int) *jv {
 	if v := hexList(s[fAuthors]); v != nil {
 		ms = append(ms, kv{"authors", v})
 	}
-	switch s[fKinds] {
-	case 1:
-		ms = append(ms, kv{"kinds", A(N("0"))})
-	case 2:
-		ms = append(ms, kv{"kinds", A(N("65535"))})
-	case 3:
-		ms = append(ms, kv{"kinds", A(N("1"), N("7"))})
-	case 4:
-		ms = append(ms, kv{"kinds", A()})
+	if s[fKinds] > 0 {
+		ks := A()
+		for _, k := range fKindLists[s[fKinds]] {
+			ks.elems = append(ks.elems, N(k))
+		}
+		ms = append(ms, kv{"kinds", ks})
 	}
 	if v := hexList(s[fE]); v != nil {
 		ms = append(ms, kv{"#e", v})
@@ -205,7 +238,7 @@ func buildFilter(s [nFDims]int) *jv {
 func fProductSize() int {
 	n := 1
 	for d := 0; d < fOrder; d++ {
-		n *= len(fDims[d].labels)
+		n *= fDims[d].prodLen()
 	}
 	return n
 }
@@ -213,7 +246,7 @@ func fProductSize() int {
 // fFromIndex decodes a mixed-radix index into a filter spec (order = 0).
 func fFromIndex(idx int) (s [nFDims]int) {
 	for d := 0; d < fOrder; d++ {
-		r := len(fDims[d].labels)
+		r := fDims[d].prodLen()
 		s[d] = idx % r
 		idx /= r
 	}
@@ -223,14 +256,14 @@ func fFromIndex(idx int) (s [nFDims]int) {
 func evProductSize() int {
 	n := 1
 	for d := 0; d < nEvDims; d++ {
-		n *= len(evDims[d].labels)
+		n *= evDims[d].prodLen()
 	}
 	return n
 }
 
 func evFromIndex(idx int) (s [nEvDims]int) {
 	for d := 0; d < nEvDims; d++ {
-		r := len(evDims[d].labels)
+		r := evDims[d].prodLen()
 		s[d] = idx % r
 		idx /= r
 	}
